@@ -4,7 +4,7 @@ model and implementation on the same op files, evidence and violation reporting.
 import hashlib, json, os, re, subprocess, sys, time
 
 VERIF = os.path.dirname(os.path.dirname(os.path.dirname(os.path.abspath(__file__))))
-LEAN = os.path.join(VERIF, "lean")
+LEAN = os.environ.get("VERIF_LEAN_DIR") or os.path.join(VERIF, "lean")      # (VERIF_LEAN_DIR: development only, a private copy of the Lean project)
 ALLOWED_AXIOMS = {"propext", "Classical.choice", "Quot.sound"}
 FORBIDDEN = re.compile(r"\b(sorry|admit|native_decide|bv_decide|implemented_by|unsafe)\b|^\s*axiom\s|maxHeartbeats\s+0\b", re.M)
 NCPU = os.cpu_count() or 4
